@@ -152,6 +152,12 @@ def tryNormalize2 (v : V2 K) : Option (V2 K × K) :=
     some (v.sdiv n, n)
   else none
 
+/-- `if !points.is_empty() { points[0].copy_geometry_from(contact) } else { points.push(contact) }`
+(geometry only) -/
+def setFirst {α : Type} (c : α) : List α → List α
+  | [] => [c]
+  | _ :: rest => c :: rest
+
 /-! ## `contact_manifold_ball_ball` -/
 
 /-- `contact_manifold_ball_ball(pos12, ball1, ball2, prediction, manifold)` (3-D). -/
@@ -166,9 +172,7 @@ def ballBall3 (pos12 : Iso3 K) (r1 r2 pred : K) (m : Manifold3 K) : Manifold3 K 
     let p2 := n2.smul r2
     let c : Contact3 K := ⟨p1, p2, dist⟩
     -- `points[0].copy_geometry_from(contact)` or `push`
-    let pts := match m.points with
-      | [] => [c]
-      | _ :: rest => c :: rest
+    let pts := setFirst c m.points
     ⟨pts, n1, n2⟩
   else m.clear
 
@@ -182,27 +186,27 @@ def ballBall2 (pos12 : Iso2 K) (r1 r2 pred : K) (m : Manifold2 K) : Manifold2 K 
     let p1 := n1.smul r1
     let p2 := n2.smul r2
     let c : Contact2 K := ⟨p1, p2, dist⟩
-    let pts := match m.points with
-      | [] => [c]
-      | _ :: rest => c :: rest
+    let pts := setFirst c m.points
     ⟨pts, n1, n2⟩
   else m.clear
+
+/-- `Unit::try_new_and_get(dpos, 0.0).unwrap_or_else(|| (Unit::try_new(pos12.translation.vector, 0.0)
+.unwrap_or_else(Vector::x_axis), 0.0))` -/
+def contactNormal3 (dpos t : V3 K) : V3 K × K :=
+  match tryNormalize3 dpos with
+  | some x => x
+  | none => ((match tryNormalize3 t with | some x => x.1 | none => ⟨1, 0, 0⟩), 0)
+def contactNormal2 (dpos t : V2 K) : V2 K × K :=
+  match tryNormalize2 dpos with
+  | some x => x
+  | none => ((match tryNormalize2 t with | some x => x.1 | none => ⟨1, 0⟩), 0)
 
 /-! ## `contact_manifold_convex_ball` (normal constraints `None`), the first shape abstract:
 `proj` is `shape1.project_local_point_and_get_feature` reduced to `(is_inside, point)`. -/
 
-def convexBall3 (proj : V3 K → Bool × V3 K) (pos12 : Iso3 K) (r2 pred : K) (flipped : Bool)
+/-- the part of `contact_manifold_convex_ball` after the normal and distance are known -/
+def convexBallOut3 (pos12 : Iso3 K) (p1 n1 : V3 K) (dist r2 pred : K) (flipped : Bool)
     (m : Manifold3 K) : Manifold3 K :=
-  let lp21 := pos12.t
-  let pr := proj lp21
-  let p1 := pr.2
-  let dpos := lp21.sub p1
-  let nd : V3 K × K := match tryNormalize3 dpos with
-    | some x => x
-    | none => ((match tryNormalize3 pos12.t with | some x => x.1 | none => ⟨1, 0, 0⟩), 0)
-  let nd : V3 K × K := if pr.1 then (nd.1.neg, -nd.2) else nd
-  let n1 := nd.1
-  let dist := nd.2
   if dist ≤ r2 + pred then
     let n2 := pos12.invRot n1.neg
     let p2 := n2.smul r2
@@ -211,11 +215,30 @@ def convexBall3 (proj : V3 K → Bool × V3 K) (pos12 : Iso3 K) (r2 pred : K) (f
     if flipped then ⟨[c], n2, n1⟩ else ⟨[c], n1, n2⟩
   else m.clear
 
+def convexBall3 (proj : V3 K → Bool × V3 K) (pos12 : Iso3 K) (r2 pred : K) (flipped : Bool)
+    (m : Manifold3 K) : Manifold3 K :=
+  let lp21 := pos12.t
+  let pr := proj lp21
+  let p1 := pr.2
+  let dpos := lp21.sub p1
+  let nd : V3 K × K := contactNormal3 dpos pos12.t
+  let nd : V3 K × K := if pr.1 then (nd.1.neg, -nd.2) else nd
+  convexBallOut3 pos12 p1 nd.1 nd.2 r2 pred flipped m
+
 /-- `contact_manifold_convex_ball_shapes`: which of the two shapes is the ball decides the flip. -/
 def convexBallShapes3 (proj : V3 K → Bool × V3 K) (ballFirst : Bool) (pos12 : Iso3 K) (r pred : K)
     (m : Manifold3 K) : Manifold3 K :=
   if ballFirst then convexBall3 proj pos12.inverse r pred true m
   else convexBall3 proj pos12 r pred false m
+
+def convexBallOut2 (pos12 : Iso2 K) (p1 n1 : V2 K) (dist r2 pred : K) (flipped : Bool)
+    (m : Manifold2 K) : Manifold2 K :=
+  if dist ≤ r2 + pred then
+    let n2 := pos12.invRot n1.neg
+    let p2 := n2.smul r2
+    let c := Contact2.flipped p1 p2 (dist - r2) flipped
+    if flipped then ⟨[c], n2, n1⟩ else ⟨[c], n1, n2⟩
+  else m.clear
 
 def convexBall2 (proj : V2 K → Bool × V2 K) (pos12 : Iso2 K) (r2 pred : K) (flipped : Bool)
     (m : Manifold2 K) : Manifold2 K :=
@@ -223,18 +246,9 @@ def convexBall2 (proj : V2 K → Bool × V2 K) (pos12 : Iso2 K) (r2 pred : K) (f
   let pr := proj lp21
   let p1 := pr.2
   let dpos := lp21.sub p1
-  let nd : V2 K × K := match tryNormalize2 dpos with
-    | some x => x
-    | none => ((match tryNormalize2 pos12.t with | some x => x.1 | none => ⟨1, 0⟩), 0)
+  let nd : V2 K × K := contactNormal2 dpos pos12.t
   let nd : V2 K × K := if pr.1 then (nd.1.neg, -nd.2) else nd
-  let n1 := nd.1
-  let dist := nd.2
-  if dist ≤ r2 + pred then
-    let n2 := pos12.invRot n1.neg
-    let p2 := n2.smul r2
-    let c := Contact2.flipped p1 p2 (dist - r2) flipped
-    if flipped then ⟨[c], n2, n1⟩ else ⟨[c], n1, n2⟩
-  else m.clear
+  convexBallOut2 pos12 p1 nd.1 nd.2 r2 pred flipped m
 
 def convexBallShapes2 (proj : V2 K → Bool × V2 K) (ballFirst : Bool) (pos12 : Iso2 K) (r pred : K)
     (m : Manifold2 K) : Manifold2 K :=
